@@ -40,8 +40,15 @@ Tree == SeqToSet(Trace[caseLine].tree)
 \* archlinux package names: alphanumerics and . _ + - only, not starting with a hyphen or a dot (arch.nameIsValid)
 ArchNameOK(n) == /\ n # "" /\ Ch(n, 1) \notin {"-", "."}
                  /\ \A i \in 1..Len(n) : IsAlnum(Ch(n, i)) \/ Ch(n, i) \in {".", "_", "+", "-"}
+\* deb and ipk write GNU tar headers: an owner or group name of more than 32 bytes cannot be stored (the entry cannot be
+\* shipped as declared: the packaging fails - it does not leave the entry out)
+GnuNameLimit(f, c) ==
+  f \in {"deb", "ipk"} /\ \E i \in 1..Len(c.entries) :
+     /\ c.entries[i].tag \in {"", f} /\ c.entries[i].type \notin {"symlink", "ghost", "doc", "licence", "license", "readme"}
+     /\ (Len(c.entries[i].fi.owner) > 32 \/ Len(c.entries[i].fi.group) > 32)
 ExpectBuild(f, c, st) ==
   /\ st = "ok"
+  /\ ~GnuNameLimit(f, c)
   /\ (f = "archlinux" => ArchNameOK(c.name))
   /\ ~(f \in {"apk", "archlinux"} /\ EffPlatform(c) # "linux")
   /\ (f = "rpm" /\ c.epoch # "" => AllDigits(c.epoch))
